@@ -267,6 +267,24 @@ fn c18_one(args: &[String]) -> Result<i32, String> {
     let g = |i: usize| args.get(i).cloned().unwrap_or_default();
     let n: usize = g(0).parse().map_err(|_| "bad N")?;
     fn one<const N: usize>(ctor: &str, recipe: &str, act: &str, fault: &str) -> Result<String, String> {
+        if ctor == "io" {
+            let (r, a) = io::c18_parse_io(recipe, act).ok_or("bad io case")?;
+            return Ok(io::c18_io_line::<N>(&r, &a));
+        }
+        if ctor == "zst-cap" {
+            return c19::c18_one(recipe, act).ok_or("bad zst-cap case".into());
+        }
+        if ctor == "zst" {
+            let (rot, len) = recipe.split_once(',').ok_or("bad zst layout")?;
+            let (rot, len): (usize, usize) = (rot.parse().map_err(|_| "bad rot")?, len.parse().map_err(|_| "bad len")?);
+            let op = zst::ZOp::parse(act).ok_or("bad zst op")?;
+            let f = match fault.split_once('#') {
+                None => None,
+                Some((k, i)) => Some((if k == "clone" { 0u8 } else { 1u8 }, i.parse::<u32>().map_err(|_| "bad fault")?)),
+            };
+            let (probs, clones, drops) = zst::zst_case::<N>(rot, len, op, f);
+            return Ok(format!("clone-calls {} destructor-calls {} problems {:?}", clones, drops, probs));
+        }
         let fault = explore::parse_fault(fault).ok_or("bad fault")?;
         if act == "ctor" {
             let c = act::Ctor::parse(ctor).ok_or("bad ctor")?;
